@@ -127,9 +127,14 @@ class Helper(object):
             return False
         if any(d not in ('staticmethod', 'classmethod') for d in decos):
             return False
+        self.is_gen = False
         for x in _walk_own(n.body):
-            if isinstance(x, (ast.Yield, ast.YieldFrom, ast.Await, ast.Global, ast.Nonlocal)):
+            if isinstance(x, (ast.Await, ast.Global, ast.Nonlocal)):
                 return False
+            if isinstance(x, (ast.Yield, ast.YieldFrom)):
+                # a generator helper: inlined only where it is delegated to with `yield from` (its yields become the
+                # caller's yields, its `return E` the value of the `yield from` expression)
+                self.is_gen = True
             if isinstance(x, _SCOPES):
                 return False
             if isinstance(x, ast.Call):
@@ -265,6 +270,17 @@ def inline_helpers(tree, known_functions):
                 calls = [c for c in ast.walk(s) if isinstance(c, ast.Call)]
                 hits = [(c,) + _resolve(c, helpers, cls_name, class_bases) for c in calls]
                 hits = [(c, h, recv) for c, h, recv in hits if h is not None]
+                # `yield from h(...)` / `x = yield from h(...)` as the whole statement: the delegation plays the call
+                yf = isinstance(s, (ast.Assign, ast.Expr)) and isinstance(s.value, ast.YieldFrom) and \
+                    isinstance(s.value.value, ast.Call) and any(c is s.value.value for c, _, _ in hits)
+                if any(h.is_gen for _, h, _ in hits) and not (yf and len(hits) == 1 and hits[0][1].is_gen):
+                    i += 1
+                    continue
+                if yf and not hits[0][1].is_gen:
+                    i += 1
+                    continue
+                if yf:
+                    s.value = s.value.value          # from here on the statement reads `x = h(...)` / `h(...)`
                 if len(hits) != 1:
                     i += 1
                     continue
@@ -330,11 +346,11 @@ def inline_helpers(tree, known_functions):
                         mapping[v] = '%s__%s' % (v, h.node.name.strip('_'))
                 _subst_names(body, mapping)
                 whole = isinstance(s, ast.Assign) and s.value is call and len(s.targets) == 1
-                if not h.returns_value:
+                if not h.returns_value or (yf and isinstance(s, ast.Expr)):
                     if not (isinstance(s, ast.Expr) and s.value is call):
                         i += 1
                         continue
-                    _convert_returns(body, None)
+                    _convert_returns(body, lambda e: ast.Expr(value=e, lineno=s.lineno))
                     new = pre + body
                 elif whole:
                     tgt = s.targets[0]
